@@ -37,19 +37,31 @@ META = {
             "standard double-S feasibility condition is used. C14_trap_property / C14_bell_property compose both layers on "
             "the generators' outputs. Tie: the same Gallina terms run on Coq's primitive binary64 floats agree BIT FOR BIT "
             "with the C (generators incl. the bisection loop; all evaluation functions at, one ulp around and between every "
-            "phase boundary).",
+            "phase boundary). Second tie, re-proved on every run for every NumOps instance: tools/c2coq.py regenerates "
+            "a_trajtrap_gen, a_trajbell_gen and the seven evaluation functions from the current sources and each is proved "
+            "equal to the hand model; a_trajbell_gen's do-while bisection becomes a Fixpoint on fuel and "
+            "tie_a_trajbell_gen states, for ALL fuels and inputs, regenerated function = the model bell_gen_b with its "
+            "bookkeeping (exit tag, pass counter) forgotten, out-of-fuel on one side iff on the other.",
     "note": "Trusted: Coq kernel/vm_compute (primitive floats), the standard real-number axioms listed by Print Assumptions; "
             "the 'same term, different NumOps instance' argument between R and binary64; the hand transcription "
             "coq/C14/TrapDefs.v, BellDefs.v (goto-exit as early returns, the do-while as a step function on fuel; "
-            "validated bit for bit against the C on the generated cases only); gcc -O2 -ffp-contract=off on x86-64 being "
+            "validated bit for bit against the C on the generated cases, and tied to the translator's reading of the "
+            "current sources by the tie theorems - all nine functions incl. a_trajbell_gen with its loop, for every fuel); "
+            "the translator tools/c2coq.py is trusted to read the C right (its output is not trusted to match the model: "
+            "that is proved); the theorems of Properties_C14.v remain about the hand model; gcc -O2 -ffp-contract=off on x86-64 being "
             "IEEE binary64 operation by operation with correctly rounded sqrt. NOT proved: floating-point rounding (the "
             "oracle measures the well-formedness residuals and sampled limits of every C context with tolerance 1e-7); "
-            "termination of the C loop (the theorems hold for every fuel; running out of fuel is a failure result); that "
+            "termination of the C loop, i.e. fuel SUFFICIENCY (in binary64 ac is halved on every non-exiting pass, so at "
+            "most 1076 passes can happen, but this is not proved: the theorems and the tie hold for every fuel, running "
+            "out of fuel is a distinct result - None in the regenerated function, BX_out_of_fuel in the model - that no "
+            "theorem treats as success; the correspondence run uses fuel 1200 and does not generate am = +-inf, for which "
+            "ac stays infinite and the C loop does not end); that "
             "a feasible request makes the generators return t>0 (the theorems are conditional on t>0, as the property is). "
             "In R, sqrt(negative)=0 and x/0=0: the planning theorems prove the radicands non-negative and the divisors "
             "non-zero, so they do not rest on these conventions.",
     "technique": "Rocq proof over R (field/nra/lra, Coquelicot is_derive/continuous glued across phase boundaries, loop "
-                 "invariant by induction on fuel) + a_trajtrap_gen and the seven evaluation functions regenerated by a translator and proved equal to the "
+                 "invariant by induction on fuel) + a_trajtrap_gen, a_trajbell_gen (data-dependent loop as a Fixpoint on fuel, tie by induction on the "
+                 "fuel) and the seven evaluation functions regenerated by a translator and proved equal to the "
                  "model on every run + bit-exact primitive-float model vs C correspondence + numeric "
                  "well-formedness/limit oracle on the C output",
     "category": "proof",
@@ -790,11 +802,12 @@ def run_batch(ctx, cbin, r, n, corpus, st, bi):
 
 def run(ctx):
     ctx.prove()
-    # second tie: the seven evaluation functions are REGENERATED from the current sources by the translator and proved equal to the
+    # second tie: both generators and the seven evaluation functions are REGENERATED from the current sources by the translator
+    # (`@fuel`: the bisection loop of a_trajbell_gen becomes a Fixpoint on fuel, harness/C14/TieBellGen.v) and proved equal to the
     # hand model, for every NumOps instance
     ctx.translate_and_tie([("src/trajtrap.c", ["a_trajtrap_gen", "a_trajtrap_pos", "a_trajtrap_vel", "a_trajtrap_acc"]),
-                           ("src/trajbell.c", ["a_trajbell_pos", "a_trajbell_vel", "a_trajbell_acc", "a_trajbell_jer"])],
-                          "GenTraj", [H / "TieTraj.v", H / "TieTrapGen.v"], have=1, real=8)
+                           ("src/trajbell.c", ["a_trajbell_gen@fuel", "a_trajbell_pos", "a_trajbell_vel", "a_trajbell_acc", "a_trajbell_jer"])],
+                          "GenTraj", [H / "TieTraj.v", H / "TieTrapGen.v", H / "TieBellGen.v"], have=1, real=8)
     ctx.assumptions += ["floating-point rounding is not proved: the WF residuals of every C context are measured with relative "
                         "tolerance %g" % TOL,
                         "C built with gcc -O2 -ffp-contract=off: binary64 operation by operation; sqrt correctly rounded",
